@@ -118,7 +118,7 @@ def option_cases(tier):
         out.append(("shared_Sum", None, r))
         out.append(("shared_Treatment", None, r))
     if tier != "quick":
-        for perm in list(itertools.permutations([-1, 0, 2, 5, 7]))[::5]:
+        for perm in list(itertools.permutations([-1, 0, 2, 5, 7])):
             out.append(("C_levels5", list(perm), None))
     return out
 
@@ -288,8 +288,8 @@ def run(tier, seed):
     rep = core.Report(ID, tier, seed)
     rep.functions = ["formulae.categorical.Treatment.code_with_intercept/code_without_intercept, Sum._omit_index/_sum_contrast/code_*, ContrastMatrix, CategoricalBox", "formulae.transforms.C/T/S",
                      "formulae.terms.call.Call.eval_categorical_box", "formulae.terms.terms.Model.eval (coding decisions) for the interchangeability runs"]
-    N = 8 if tier == "quick" else 12
-    rep.bounds = {"level counts": f"1..{N}, every reference / omit index and the default", "levels= permutations": f"all permutations of {3 if tier == 'quick' else 4} levels" + ("" if tier == "quick" else " and a 1/5 slice of the permutations of 5"),
+    N = 8 if tier == "quick" else 20
+    rep.bounds = {"level counts": f"1..{N}, every reference / omit index and the default", "levels= permutations": f"all permutations of {3 if tier == 'quick' else 4} levels" + ("" if tier == "quick" else " and all 120 permutations of 5"),
                   "interchangeability": f"{len(TEMPLATES)} formula templates over f (2 levels), g (3 levels), x; codings {CODINGS['f']} / {CODINGS['g']}"}
     rep.outside = ["level counts above the bound; user-defined Encoding subclasses", "floats"]
     rep.stubs = pipe.STUBS
